@@ -6,4 +6,5 @@ From LasV Require Import Lib.Base Lib.Layout Model.Las Model.Access.
 Extraction Language OCaml.
 Extraction "../ocaml/c17/model.ml"
   Z.add Z.mul Z.sub Z.div_eucl Z.compare Z.of_nat Z.to_nat
-  read_via open_via consume_via read_mmap mmap_set mmap_set_dim read_file no_seek_tell only_offered default_read_evlrs.
+  read_via open_via consume_via read_mmap mmap_set mmap_set_dim read_file no_seek_tell only_offered default_read_evlrs
+  s_read_short s_readinto_short read_exact s_read s_readinto.
